@@ -87,6 +87,8 @@ def root_section(kind):
 def build(m, d):
     """m: dict(n=3|4, edges=[[i,j],...], ek=edge kind, rk=root kind). Writes a.o, b.o (+ script /
     libdummy.so) into d. -> argv (without -o)."""
+    if "rel" in m:
+        return build_rel(m, d)
     os.makedirs(d, exist_ok=True)
     n, edges, ek, rk = m["n"], [tuple(e) for e in m["edges"]], m["ek"], m["rk"]
     arch = m.get("arch", "x86_64")
@@ -168,6 +170,151 @@ def build(m, d):
     if rk == "export-dynamic":
         argv += [dummy_so()]
     return argv
+
+
+# --------------------------------------------------------------------------------------------
+# relocation-kind axis: an edge i->j is one relocation of a chosen type in a 16-byte slot of Si.
+# name: (arch, r_type, slot bytes, offset of the relocated field in the slot, addend,
+#        addend is added to S (so a section-symbol edge adds HEAD), target must be a TLS section,
+#        needs nothing from the symbol's value = wild's layout::resolution_flags(kind) is empty)
+def _w(*words):
+    return b"".join(struct.pack("<I", w) for w in words)
+
+
+REL_KINDS = {
+    # x86-64
+    "NONE":          ("x86_64", 0, b"", 0, 0, True, False, True),
+    "64":            ("x86_64", 1, b"", 0, 0, True, False, False),
+    "PC32":          ("x86_64", 2, b"\x48\x8d\x05", 3, -4, True, False, False),        # lea s(%rip),%rax
+    "PLT32":         ("x86_64", 4, b"\xe8", 1, -4, True, False, False),                # call s
+    "GOTPCREL":      ("x86_64", 9, b"\x48\x8b\x05", 3, -4, False, False, False),       # mov s@GOTPCREL(%rip),%rax
+    "GOTPCRELX":     ("x86_64", 41, b"\xff\x15", 2, -4, False, False, False),          # call *s@GOTPCREL(%rip)
+    "REX_GOTPCRELX": ("x86_64", 42, b"\x48\x8b\x05", 3, -4, False, False, False),
+    "32S":           ("x86_64", 11, b"\x48\xc7\xc0", 3, 0, True, False, False),        # mov $s,%rax
+    "32":            ("x86_64", 10, b"\xb8", 1, 0, True, False, False),                # mov $s,%eax
+    "GOTOFF64":      ("x86_64", 25, b"\x48\xb8", 2, 0, True, False, False),            # movabs $s@GOTOFF,%rax
+    "TLSLD":         ("x86_64", 20, b"\x48\x8d\x3d\0\0\0\0\xe8", 3, -4, False, True, True),   # lea s@tlsld(%rip),%rdi; call __tls_get_addr
+    "DTPOFF32":      ("x86_64", 21, b"\x48\x8d\x90", 3, 0, True, True, False),         # lea s@dtpoff(%rax),%rdx
+    "GOTTPOFF":      ("x86_64", 22, b"\x48\x8b\x05", 3, -4, False, True, False),       # mov s@gottpoff(%rip),%rax
+    "TPOFF32":       ("x86_64", 23, b"\x48\x8d\x80", 3, 0, True, True, False),         # lea s@tpoff(%rax),%rax
+    # AArch64
+    "A64_NONE":                 ("aarch64", 0, b"", 0, 0, True, False, True),
+    "A64_ABS64":                ("aarch64", 257, b"", 0, 0, True, False, False),
+    "A64_PREL32":               ("aarch64", 261, b"", 0, 0, True, False, False),
+    "A64_ADR_PREL_PG_HI21":     ("aarch64", 275, _w(0x90000000), 0, 0, True, False, False),   # adrp x0, s
+    "A64_ADD_ABS_LO12_NC":      ("aarch64", 277, _w(0x91000000), 0, 0, True, False, True),    # add x0,x0,:lo12:s
+    "A64_LDST64_ABS_LO12_NC":   ("aarch64", 286, _w(0xf9400000), 0, 0, True, False, True),    # ldr x0,[x0,:lo12:s]
+    "A64_CALL26":               ("aarch64", 283, _w(0x94000000), 0, 0, True, False, False),   # bl s
+    "A64_ADR_GOT_PAGE":         ("aarch64", 311, _w(0x90000000), 0, 0, False, False, False),  # adrp x0, :got:s
+    "A64_LD64_GOT_LO12_NC":     ("aarch64", 312, _w(0xf9400000), 0, 0, False, False, False),  # ldr x0,[x0,:got_lo12:s]
+    "A64_TLSLD_ADR_PAGE21":     ("aarch64", 518, _w(0x90000000), 0, 0, False, True, True),
+    "A64_TLSIE_ADR_GOTTPREL_PAGE21": ("aarch64", 541, _w(0x90000000), 0, 0, False, True, False),
+    "A64_TLSLE_ADD_TPREL_HI12": ("aarch64", 549, _w(0x91400000), 0, 0, True, True, False),    # add x0,x0,:tprel_hi12:s
+}
+VALUELESS = [k for k, v in REL_KINDS.items() if v[7]]
+ORDINARY = [k for k, v in REL_KINDS.items() if not v[7]]
+SLOT = 16
+SHF_TLS, STT_TLS = 0x400, 6
+
+
+def build_rel(m, d):
+    """Member with a "rel" key: root kind entry (static non-PIE), every edge i->j is one relocation
+    of kind m["rel"] against the named hidden global n_j (ek global, and always across objects) or
+    against the section symbol of Sj (ek section). For kinds that need a TLS symbol, S1.. are .tdata
+    sections and edges into the (non-TLS) entry section S0 fall back to a plain pc-relative word."""
+    os.makedirs(d, exist_ok=True)
+    n, edges, ek = m["n"], [tuple(e) for e in m["edges"]], m["ek"]
+    arch, rtype, ibytes, roff, addend, to_s, tls, _ = REL_KINDS[m["rel"]]
+    plain = RELOCS[arch][1]
+    owner = {0: 0, 1: 0, 2: 1, 3: 1}
+    objs = [elfgen.ElfObject(arch), elfgen.ElfObject(arch)]
+    secs, named, secsym = {}, {}, {}
+    tga = None
+    if m["rel"] == "TLSLD":          # the instruction pair names __tls_get_addr; define it
+        o = objs[0]
+        t = o.section(".text.tga", flags=SHF_ALLOC | SHF_EXECINSTR, align=16, data=b"\xc3")
+        o.symbol("__tls_get_addr", section=t, type=STT_FUNC, size=1)
+    for i in range(n):
+        o = objs[owner[i]]
+        if i and tls:
+            name, typ, flags = f".tdata.s{i}", SHT_PROGBITS, SHF_ALLOC | SHF_WRITE | SHF_TLS
+        else:
+            name, typ, flags = default_section(i)
+        nout = sum(1 for (a, _j) in edges if a == i)
+        slot = ibytes + bytes(SLOT - len(ibytes))
+        data = b"\xcc" * HEAD + marker(i) + slot * nout
+        s = o.section(name, type=typ, flags=flags, align=8, data=data)
+        secs[i] = s
+        styp = STT_TLS if flags & SHF_TLS else STT_OBJECT
+        o.symbol(f"mark_{i}", section=s, value=HEAD, type=styp, size=8, vis=STV_HIDDEN)
+        named[i] = o.symbol(f"n_{i}", section=s, value=HEAD, type=styp if flags & SHF_TLS else STT_NOTYPE,
+                            vis=STV_HIDDEN)
+        secsym[i] = o.section_symbol(s)
+    undef = {}
+    for i in range(n):
+        o = objs[owner[i]]
+        for k, j in enumerate(j for (a, j) in edges if a == i):
+            base = HEAD + 8 + SLOT * k
+            if owner[j] != owner[i]:
+                if (owner[i], j) not in undef:
+                    undef[(owner[i], j)] = o.symbol(f"n_{j}", vis=STV_HIDDEN,
+                                                    type=STT_TLS if (tls and j) else STT_NOTYPE)
+                sym, extra = undef[(owner[i], j)], 0
+            elif ek == "section":
+                sym, extra = secsym[j], HEAD
+            else:
+                sym, extra = named[j], 0
+            if tls and j == 0:
+                o.reloc(secs[i], base + 8, plain, sym, extra)       # plain word in the slot's tail
+                continue
+            o.reloc(secs[i], base + roff, rtype, sym, addend + (extra if to_s else 0))
+            if m["rel"] == "TLSLD":
+                if (owner[i], "tga") not in undef:
+                    undef[(owner[i], "tga")] = o.symbol("__tls_get_addr") if owner[i] else \
+                        [x for x in o.symbols if x.name == "__tls_get_addr"][0]
+                o.reloc(secs[i], base + 8, 4, undef[(owner[i], "tga")], -4)
+    objs[0].symbol("_start", section=secs[0], value=HEAD, type=STT_FUNC)
+    for ob in objs:
+        ob.note_gnu_stack()
+    objs[0].write(os.path.join(d, "a.o"))
+    objs[1].write(os.path.join(d, "b.o"))
+    return [THREADS] + (["-m", "aarch64linux"] if arch == "aarch64" else []) + ["a.o", "b.o"]
+
+
+def calibrate(base):
+    """For every relocation kind x symbol kind: do the reference linkers (GNU ld 2.40 -- x86-64
+    only -- and ld.lld, both with --gc-sections) keep every section the model calls reachable on a
+    small graph? Only combinations on which all available reference linkers agree with the model are
+    judged. -> {(rel, ek): None (judged) | reason for exclusion}"""
+    out = {}
+    for rel, ek in itertools.product(REL_KINDS, ("global", "section")):
+        m = {"n": 4, "edges": [[0, 1], [1, 2], [2, 1], [2, 0], [3, 3], [3, 1]], "ek": ek, "rk": "entry",
+             "rel": rel}
+        d = os.path.join(base, "cal")
+        argv = [a for a in build_rel(m, d) if a != THREADS and a not in ("-m", "aarch64linux")]
+        linkers = [["ld.lld", "--gc-sections"]]
+        if REL_KINDS[rel][0] == "x86_64":
+            linkers.append(["ld", "--gc-sections"])
+        why = None
+        for ln in linkers:
+            ref = os.path.join(d, "out.ref")
+            try:
+                os.unlink(ref)
+            except OSError:
+                pass
+            rc, _, err = vlib.run([*ln, *argv, "-o", "out.ref"], cwd=d)
+            if rc != 0:
+                why = f"{ln[0]} rejects the input: {err.decode(errors='replace').strip()[-160:]}"
+                break
+            viol, st = judge(argv, d, ref)
+            if viol or st.get("live") != 3:
+                why = f"{ln[0]} does not keep the target ({[v[0] for v in viol]}, {st})"
+                break
+            if not st.get("dropped"):
+                why = f"{ln[0]} did not collect the unreachable section (calibration vacuous)"
+                break
+        out[(rel, ek)] = why
+    return out
 
 
 def dummy_so():
@@ -292,8 +439,15 @@ def judge(argv, cwd, outpath):
         cands = [s for s in osyms.get(mk.name, []) if s.shndx != 0]
         why = "marker symbol absent from .symtab"
         for s in cands:
+            addr = s.value
+            if s.type == elfread.STT_TLS:        # value is an offset into the TLS template
+                tlsseg = [p for p in out.segments if p.p_type == elfread.PT_TLS]
+                if not tlsseg:
+                    why = "marker symbol is STT_TLS but the output has no PT_TLS"
+                    continue
+                addr += tlsseg[0].p_vaddr
             try:
-                got = out.read_vaddr(s.value, 8)
+                got = out.read_vaddr(addr, 8)
             except elfread.ElfError:
                 why = f"marker symbol value {s.value:#x} is outside the image"
                 continue
